@@ -68,7 +68,7 @@ func setupC02(env *simEnv) {
 			rd.violate("C02/in-flight-bound-exceeded", fmt.Sprintf("%d resident entries are unknown to the policy, more than write-queue capacity %d + %d writers in flight", unacc, bound, writers))
 		}
 		if unacc > 0 {
-			simrt.Probe("c02.unaccounted-in-flight")
+			probe("c02.unaccounted-in-flight")
 		}
 	})
 }
@@ -165,17 +165,28 @@ func installPolicyMonitor(prop string, rd *RunData) {
 	simrt.OnRelease(internal.PolicyMuKey(rd.Store), func() {
 		rd.MonChecks++
 		sn := internal.Snapshot(rd.Store)
+		neg := ""
+		for _, rg := range sn.Regions {
+			if rg.Len < 0 {
+				neg = ",negative-entry-weight"
+			}
+			for _, e := range rg.Entries {
+				if e.PolicyWeight < 0 {
+					neg = ",negative-entry-weight"
+				}
+			}
+		}
 		for _, e := range accountingErrors(sn, true) {
-			rd.violate(prop+"/invariant/"+classifyInv(e), "after a policy step: "+e+" | state: "+dumpRegions(sn))
+			rd.violate(prop+"/invariant/"+classifyInv(e)+neg, "after a policy step: "+e+" | state: "+dumpRegions(sn))
 		}
 		if sn.Regions[0].Capacity+sn.Regions[2].Capacity != capSum {
 			rd.violate(prop+"/invariant/capacity-not-conserved", fmt.Sprintf("window capacity %d + protected capacity %d != initial %d", sn.Regions[0].Capacity, sn.Regions[2].Capacity, capSum))
 		}
 		if sn.Regions[0].Capacity != lastWin {
 			if sn.Regions[0].Capacity > lastWin {
-				simrt.Probe("c07.window-grew")
+				probe("c07.window-grew")
 			} else {
-				simrt.Probe("c07.window-shrank")
+				probe("c07.window-shrank")
 			}
 			lastWin = sn.Regions[0].Capacity
 		}
